@@ -79,7 +79,8 @@ CHECKS["C01"] = dict(
               "structural + behavioural correspondence model vs real compiler on every run; differential translation validation of compiled vs reference rendering",
     text="C01_compiled_equals_source_partial (Props_C01.v): for every body satisfying the computable side conditions c01_hyps (inside the proved fragment, nesting "
          "depth below the model's termination-checker fuel, model output legal Go in the sense of Strict.v) the model's output, run as Start(Delay(...)), has the outcome of the "
-         "source coroutine (values, worlds at delivery, stop point, final world, panic). C01_end_to_end_machine_partial: when moreover the model output contains no native Yield (lk, computable), "
+         "source coroutine (values, worlds at delivery, stop point, final world, panic). C01_compiled_equals_source_nofall_partial: for bodies without fallthrough the side conditions concern the INPUT only (fragment, acceptance by the model, depth of the program and of the intermediate code) and legality of the output is a conclusion. "
+         "C01_end_to_end_machine_partial: when moreover the model output contains no native Yield (lk, computable), "
          "the same outcome is produced by the consumer loop MoveNext/Current written with the generator object of the MACHINE model of seq.go (SeqMachine.v: co cells, continuations, For trampoline), for all large enough fuels. "
          "The side conditions of both theorems are evaluated on every generated program (evidence: theorem_side_conditions). Outside the fragment (yielding init/post, break out of a yielding case = finding F2, range, YieldFrom) the check is differential. Known findings F1/F2 are reported as such.",
     note=C_NOTE, design="§6 C01, §11")
@@ -144,7 +145,8 @@ CHECKS["C11"] = dict(
               "the remaining legality conditions (legalb) evaluated on every generated program; acceptance check on the real compiler: "
               "generated supported programs must compile without compiler panic under six import styles and the output must build; behaviour compared too",
     text="C11_no_assertion_failure_partial, C11_no_assertion_any_fuel_partial, C11_branch_placement_partial (after pass3 no break/continue is left outside a native loop/switch), "
-         "C11_function_literals_terminate_partial (after pass2) and C11_output_literals_terminate_partial (final output: every function literal terminating) (Props_C11.v): push on a frozen/unchecked block, pop of an empty block, pushReturn with a non-return kind, "
+         "C11_function_literals_terminate_partial (after pass2), C11_output_literals_terminate_partial (final output: every function literal terminating) and C11_output_is_legal_partial (for bodies without fallthrough the whole legality "
+         "condition legalb of the output is a theorem: no stray break/continue/return/fallthrough, terminating literals, simple init/post statements, depth within the checker's fuel) (Props_C11.v): push on a frozen/unchecked block, pop of an empty block, pushReturn with a non-return kind, "
          "returnNormalRequired on a wrong block kind, yield-in-init and post-not-return are unreachable on the fragment. The rest of 'the output builds' (types, names, imports, unused variables) is checked, not proved: go build of the real "
          "output of every generated program (whole supported grammar plus a regression corpus of shapes that used to crash); untagged rejections are violations.",
     note=C_NOTE, design="§6 C11, §11")
